@@ -64,12 +64,12 @@ def rdf_adjust(E, A):
     return E
 
 
-def judge_save(doc, model, how, tmpdir, tag):
+def judge_save(doc, model, how, tmpdir, tag, reuse=None):
     """-> (violations, artefact)"""
     out = []
     E = DL.expected_state(doc, model)
     try:
-        artefact, pkg = DL.save_doc(doc, how, tmpdir, pretty=False, tag=tag)
+        artefact, pkg = DL.save_doc(doc, how, tmpdir, pretty=False, tag=tag, reuse=reuse)
     except Exception as e:
         import traceback
 
@@ -123,20 +123,7 @@ def judge_flat_xml(doc, tmpdir):
                 if t and t not in flat_paras:
                     out.append(("flat-xml:paragraph-missing", {"part": name, "text": t[:120]}))
                     break
-    import base64
-    import re
-
-    payloads = {re.sub(r"\s+", "", e.text or "") for e in root.iter("{urn:oasis:names:tc:opendocument:xmlns:office:1.0}binary-data")}
-    try:
-        croot = etree.fromstring(st["content.xml"])
-        for img in croot.iter("{urn:oasis:names:tc:opendocument:xmlns:drawing:1.0}image"):
-            href = img.get("{http://www.w3.org/1999/xlink}href")
-            if href and href in st and st[href]:
-                if base64.standard_b64encode(st[href]).decode() not in payloads:
-                    out.append(("flat-xml:image-payload-missing", {"href": href}))
-                    break
-    except Exception:
-        pass
+    out += DL.flat_payload_issues(st, data)
     return out
 
 
@@ -146,6 +133,9 @@ def run_case(case, res, rng=None):
     with DL.TmpDir() as tmp:
         doc = DL.open_source(case["source"])
         srckind = case["source"]["kind"] + ":" + doc.mimetype.rsplit(".", 1)[-1]
+        # same-target histories may start on a place that is already taken (a larger archive in the buffer,
+        # another document's folder)
+        reuse = {"occupant": case["occupant"]} if case.get("same_target") and case.get("occupant") else None
         for ci, cyc in enumerate(case["cycles"]):
             model = DL.EditModel()
             kinds = set()
@@ -167,7 +157,7 @@ def run_case(case, res, rng=None):
                 if v:
                     return [(m, dict(d, cycle=ci)) for m, d in v]
             # cycles may save again at the same place (stale members of an earlier save must go)
-            v, doc2 = judge_save(doc, model, cyc["how"], tmp, ("same" if case.get("same_target") else f"{ci}") + str(case.get("name_key", "")))
+            v, doc2 = judge_save(doc, model, cyc["how"], tmp, ("same" if case.get("same_target") else f"{ci}") + str(case.get("name_key", "")), reuse=reuse)
             if res is not None:
                 res.judge()
                 res.cls((srckind, cyc["how"], f"cycle{ci}", "parsed=" + parsed, "edits=" + "+".join(sorted(kinds)) if kinds else "edits=none", "same-target" if case.get("same_target") else ""), True)
@@ -185,7 +175,10 @@ def gen_case(rng):
         if rng.random() < 0.2:
             edits = DL.readd_theme(rng, edits)  # a file added, deleted, added again with the same content
         cycles.append({"edits": edits, "how": rng.choice(HOWS), "flat": rng.random() < 0.15})
-    return {"source": DL.gen_source(rng), "cycles": cycles, "same_target": rng.random() < 0.4, "name_key": rng.choice(["", "", "k%d" % rng.randrange(500)])}
+    case = {"source": DL.gen_source(rng), "cycles": cycles, "same_target": rng.random() < 0.4, "name_key": rng.choice(["", "", "k%d" % rng.randrange(500)])}
+    if case["same_target"] and rng.random() < 0.5:
+        case["occupant"] = rng.choice(["background.odp", "example.odp", "frame_image.odp"])
+    return case
 
 
 def run(ctx, res):
